@@ -77,7 +77,10 @@ def judge(rec, price, ops):
                     return [(o["i"], "transaction id %s issued twice" % tid)]
                 seen_ids.add(tid)
                 L(mk)[1] += int(q)
-                if mk not in after and mk not in left:
+            # makers that traded and are gone, in the order they left (= order of their LAST transaction)
+            mks = [t[2] for t in txs]
+            for j, mk in enumerate(mks):
+                if mk not in after and mk not in mks[j + 1:]:
                     left.append(mk)
             if gen.parse_list(d["filled"]) != left:
                 return [(o["i"], "filled_order_ids %s, makers that traded and left: %s" % (d["filled"], left))]
